@@ -1,5 +1,5 @@
 (* C10 - Packets cross threads exactly once, in order, intact, under every schedule. *)
-From RS Require Import Base.Tac Model.Queue Proofs.QueueInv.
+From RS Require Import Base.Tac Model.Queue Proofs.QueueInv Proofs.QueueProgress.
 Local Open Scope nat_scope.
 
 (* Throughout: n producers (receiving side / caller threads), one decoding thread, ANY schedule
@@ -105,3 +105,14 @@ Proof. vm_compute. repeat split; reflexivity. Qed.
 Example C10_E4_two_producers_interleaved :
   g_decoded (run (init 2) [AProd 0 1%Z; AProd 1 2%Z; AProd 1 2%Z; AProd 0 1%Z; AProd 1 2%Z; AProd 0 1%Z; ACons; ACons; ACons; ACons; ACons; ACons]) = [(0, 2%Z); (1, 1%Z)].
 Proof. vm_compute. reflexivity. Qed.
+
+(* T7: progress.  From every reachable state, the decoding thread alone (its steps and the always-enabled
+   time-out of its wait) empties the queue within mu s rounds, drops nothing, and ends having decoded every
+   packet handed over so far that no earlier overflow clear dropped: queued packets can never be stuck. *)
+Theorem C10_T7_drain_progress n sched :
+  let s := run (init n) sched in
+  let s' := run s (QueueProgress.pair_sched (QueueProgress.mu s)) in
+  q_stuffed s' = [] /\ g_held s' = [] /\ g_dropped s' = g_dropped s /\
+  (forall e, In e (g_pushed s) -> ~ In e (g_dropped s) -> In e (g_decoded s')).
+Proof. exact (QueueProgress.drain_progress n sched). Qed.
+Print Assumptions C10_T7_drain_progress.
